@@ -25,7 +25,7 @@ def rs_class(r):
     return (r.cls,)
 
 
-def compare_with_model(agg, ev, tree, family, modes=("min", "noisy"), seed=0):
+def compare_with_model(agg, ev, tree, family, modes=("min", "noisy"), seed=0, extra_sites=0):
     """Evaluates tree in the model and (printed) in rsjsonnet.  Returns the model outcome."""
     m = refinterp.run(tree)
     if m[0] == "U":
@@ -64,7 +64,7 @@ def compare_with_model(agg, ev, tree, family, modes=("min", "noisy"), seed=0):
                     if got[1] == "runtime" or (got[1] in ("error", "assert") and got != ("E", m[1], m[2])):
                         # both fail but differently: only a violation if the program has a single failure site,
                         # otherwise the (partially unspecified) evaluation order may pick another one
-                        if count_failure_sites(tree) <= 1:
+                        if count_failure_sites(tree) + extra_sites <= 1:
                             agg.violation({"kind": "wrong_error", "model": m[1], "impl": got[1]},
                                           dict(desc, expected=[m[1], m[2]], got=list(got)), {"script": r.lines})
                             return m
@@ -72,7 +72,7 @@ def compare_with_model(agg, ev, tree, family, modes=("min", "noisy"), seed=0):
             elif got[1] != "runtime":
                 # a function value that cannot be manifested is a failure site of its own: whether it or an explicit
                 # error elsewhere in the result is reported first is not fixed by the specification
-                if count_failure_sites(tree) <= 1 and "manifest a function" not in str(m[2]):
+                if count_failure_sites(tree) + extra_sites <= 1 and "manifest a function" not in str(m[2]):
                     agg.violation({"kind": "wrong_error", "model": "runtime", "impl": got[1]},
                                   dict(desc, expected=[m[1], m[2]], got=list(got)), {"script": r.lines})
                     return m
@@ -87,7 +87,9 @@ def count_failure_sites(t):
     n = 0
     if isinstance(t, tuple):
         if t and t[0] in ("error", "assert", "massert"):
-            n += 1
+            # an object-level assert is checked once per layer it ends up in (`o + o`): it can be two failure sites, and the
+            # order in which the layers' asserts are checked is not fixed by the specification
+            n += 2 if t[0] == "massert" else 1
         for x in t[1:]:
             n += count_failure_sites(x)
     elif isinstance(t, list):
@@ -409,7 +411,8 @@ def type_fault_shard(args):
             if inj is None:
                 continue
             tree, where, what = inj
-            m = compare_with_model(agg, ev, tree, "type_fault", modes=("min",), seed=rng.getrandbits(32))
+            # (the injected ill-typed operand is a failure site of its own next to any explicit error / assert)
+            m = compare_with_model(agg, ev, tree, "type_fault", modes=("min",), seed=rng.getrandbits(32), extra_sites=1)
             agg.add("type_fault_sites", (where, what))
             agg.count("type_fault:" + (m[0] if m[0] != "E" else m[1]))
             if i < 1:
